@@ -11,6 +11,7 @@ pub mod rwire;
 pub mod rzone;
 pub mod util;
 pub mod wiregen;
+pub mod ztext;
 
 use engine::PropertyDef;
 
